@@ -1,12 +1,16 @@
 // Package zzsync stands in for package sync in the files the checks
 // instrument (the import is rewritten in an overlay copy of the current
 // source): every operation is preceded by a scheduling point of the zzverif
-// cooperative scheduler, and blocking operations block through it, so the
-// order of the sync operations of different goroutines becomes a value the
-// solver chooses and the native build can be forced to follow.
+// cooperative scheduler, blocking operations block through it, and every
+// operation reports the happens-before edge it creates (HBRelease/HBAcquire),
+// so the order of the sync operations of different goroutines becomes a value
+// the solver chooses and the native build can be forced to follow, and the
+// engine's race detector knows what is ordered.
 //
-// Only one thread runs at a time (the scheduler hands a baton through
-// channels, which also orders memory), so plain fields are enough here.
+// Under the scheduler only one thread runs at a time (a baton handed through
+// channels, which also orders memory), so plain fields are enough. In free
+// mode (zzverif.Free(): native replay under the Go race detector) every type
+// falls through to the real sync primitive it embeds.
 package zzsync
 
 import (
@@ -15,27 +19,60 @@ import (
 	"MODULE/zzverif"
 )
 
-// Map wraps the real sync.Map.
+// Map wraps the real sync.Map (whose own atomicity is trusted).
 type Map struct{ m sync.Map }
 
-func (m *Map) Load(key any) (any, bool) { zzverif.Yield(); return m.m.Load(key) }
-func (m *Map) Store(key, value any)     { zzverif.Yield(); m.m.Store(key, value) }
+func (m *Map) Load(key any) (any, bool) {
+	zzverif.Yield()
+	v, ok := m.m.Load(key)
+	zzverif.HBAcquire(m)
+	return v, ok
+}
+func (m *Map) Store(key, value any) {
+	zzverif.Yield()
+	zzverif.HBRelease(m)
+	m.m.Store(key, value)
+}
 func (m *Map) LoadOrStore(key, value any) (any, bool) {
 	zzverif.Yield()
-	return m.m.LoadOrStore(key, value)
+	zzverif.HBRelease(m)
+	v, ok := m.m.LoadOrStore(key, value)
+	zzverif.HBAcquire(m)
+	return v, ok
 }
-func (m *Map) LoadAndDelete(key any) (any, bool) { zzverif.Yield(); return m.m.LoadAndDelete(key) }
-func (m *Map) Delete(key any)                    { zzverif.Yield(); m.m.Delete(key) }
+func (m *Map) LoadAndDelete(key any) (any, bool) {
+	zzverif.Yield()
+	zzverif.HBRelease(m)
+	v, ok := m.m.LoadAndDelete(key)
+	zzverif.HBAcquire(m)
+	return v, ok
+}
+func (m *Map) Delete(key any) {
+	zzverif.Yield()
+	zzverif.HBRelease(m)
+	m.m.Delete(key)
+}
 func (m *Map) Range(f func(key, value any) bool) {
 	zzverif.Yield()
+	zzverif.HBAcquire(m)
 	m.m.Range(f)
 }
 
 // WaitGroup follows sync.WaitGroup's contract.
-type WaitGroup struct{ n int }
+type WaitGroup struct {
+	n    int
+	real sync.WaitGroup
+}
 
 func (w *WaitGroup) Add(delta int) {
+	if zzverif.Free() {
+		w.real.Add(delta)
+		return
+	}
 	zzverif.Yield()
+	if delta < 0 {
+		zzverif.HBRelease(w)
+	}
 	w.n += delta
 	if w.n < 0 {
 		panic("sync: negative WaitGroup counter")
@@ -43,61 +80,103 @@ func (w *WaitGroup) Add(delta int) {
 }
 func (w *WaitGroup) Done() { w.Add(-1) }
 func (w *WaitGroup) Wait() {
+	if zzverif.Free() {
+		w.real.Wait()
+		return
+	}
 	zzverif.Yield()
 	zzverif.WaitUntil(func() bool { return w.n == 0 })
+	zzverif.HBAcquire(w)
 }
 
-// Mutex and RWMutex, in case the instrumented file uses them.
-type Mutex struct{ held bool }
+type Mutex struct {
+	held bool
+	real sync.Mutex
+}
 
 func (m *Mutex) Lock() {
+	if zzverif.Free() {
+		m.real.Lock()
+		return
+	}
 	zzverif.Yield()
 	zzverif.WaitUntil(func() bool { return !m.held })
 	m.held = true
+	zzverif.HBAcquire(m)
 }
 func (m *Mutex) TryLock() bool {
+	if zzverif.Free() {
+		return m.real.TryLock()
+	}
 	zzverif.Yield()
 	if m.held {
 		return false
 	}
 	m.held = true
+	zzverif.HBAcquire(m)
 	return true
 }
 func (m *Mutex) Unlock() {
+	if zzverif.Free() {
+		m.real.Unlock()
+		return
+	}
 	zzverif.Yield()
 	if !m.held {
 		panic("sync: unlock of unlocked mutex")
 	}
+	zzverif.HBRelease(m)
 	m.held = false
 }
 
 type RWMutex struct {
-	w bool
-	r int
+	w    bool
+	r    int
+	real sync.RWMutex
 }
 
 func (m *RWMutex) Lock() {
+	if zzverif.Free() {
+		m.real.Lock()
+		return
+	}
 	zzverif.Yield()
 	zzverif.WaitUntil(func() bool { return !m.w && m.r == 0 })
 	m.w = true
+	zzverif.HBAcquire(m)
 }
 func (m *RWMutex) Unlock() {
+	if zzverif.Free() {
+		m.real.Unlock()
+		return
+	}
 	zzverif.Yield()
 	if !m.w {
 		panic("sync: Unlock of unlocked RWMutex")
 	}
+	zzverif.HBRelease(m)
 	m.w = false
 }
 func (m *RWMutex) RLock() {
+	if zzverif.Free() {
+		m.real.RLock()
+		return
+	}
 	zzverif.Yield()
 	zzverif.WaitUntil(func() bool { return !m.w })
 	m.r++
+	zzverif.HBAcquire(m)
 }
 func (m *RWMutex) RUnlock() {
+	if zzverif.Free() {
+		m.real.RUnlock()
+		return
+	}
 	zzverif.Yield()
 	if m.r <= 0 {
 		panic("sync: RUnlock of unlocked RWMutex")
 	}
+	zzverif.HBRelease(m)
 	m.r--
 }
 
@@ -106,18 +185,28 @@ type Locker = sync.Locker
 // Once: the first caller runs f, later callers wait until it has returned.
 type Once struct {
 	started, done bool
+	real          sync.Once
 }
 
 func (o *Once) Do(f func()) {
+	if zzverif.Free() {
+		o.real.Do(f)
+		return
+	}
 	zzverif.Yield()
 	if o.done {
+		zzverif.HBAcquire(o)
 		return
 	}
 	if o.started {
 		zzverif.WaitUntil(func() bool { return o.done })
+		zzverif.HBAcquire(o)
 		return
 	}
 	o.started = true
-	defer func() { o.done = true }()
+	defer func() {
+		zzverif.HBRelease(o)
+		o.done = true
+	}()
 	f()
 }
